@@ -14,7 +14,7 @@ demo_cmd=$(python3 -c "import json,re;c=json.load(open('$src/_seed/meta.json'))[
 echo "demo files: $demos"; echo "demo cmd: $demo_cmd"
 for d in $demos; do mkdir -p "$wt/$(dirname $d)"; cp -r "$src/$d" "$wt/$d"; done
 echo "--- demo WITHOUT patch (expect pass)"
-(cd "$wt" && sh -c "$demo_cmd") > /tmp/confirm_$name.without 2>&1; rc0=$?
+(cd "$wt" && bash -c "$demo_cmd") > /tmp/confirm_$name.without 2>&1; rc0=$?
 tail -3 /tmp/confirm_$name.without
 if ! git -C "$wt" apply "$src/_seed/patch.diff"; then echo "PATCH DOES NOT APPLY to /repo HEAD"; cleanup; exit 1; fi
 echo "--- build + existing tests WITH patch (demo moved aside)"
@@ -23,7 +23,7 @@ for d in $demos; do mv "$wt/$d" "$wt/$d.aside"; done
 grep -v "no test files" /tmp/confirm_$name.tests | tail -9
 for d in $demos; do mv "$wt/$d.aside" "$wt/$d"; done
 echo "--- demo WITH patch (expect fail)"
-(cd "$wt" && sh -c "$demo_cmd") > /tmp/confirm_$name.with 2>&1; rc1=$?
+(cd "$wt" && bash -c "$demo_cmd") > /tmp/confirm_$name.with 2>&1; rc1=$?
 tail -5 /tmp/confirm_$name.with
 echo "rc without=$rc0 tests=$rct with=$rc1"
 if [ $rc0 -eq 0 ] && [ $rct -eq 0 ] && [ $rc1 -ne 0 ]; then
